@@ -29,6 +29,10 @@ def setup(J):
         # a streaming out-port (real FIFO, see C17): the consumer gets the IP while the producing task is still running
         jobs.append({"id": "C12-stream-n1", "prop": "C12", "kind": "stream", "mode": "delay", "delay": 1, "budget": J.budget(tier, 30, 200), "oracles": [], "events_dep": False, "force_all": -1, "race": True,
                      "args": {"n": "1", "size": "1", "max": "2", "only_classes": "none"}})
+        # ... and a producer with a streamed AND an ordinary output (its record reaches the consumer while the task still runs), both map orders
+        for fa in (-1, 1):
+            jobs.append({"id": f"C12-stream-n1-mixed-mo{fa}", "prop": "C12", "kind": "stream", "mode": "delay", "delay": 1, "budget": J.budget(tier, 30, 200), "oracles": [], "events_dep": False, "force_all": fa, "race": True,
+                         "args": {"n": "1", "size": "1", "max": "3", "mixed": "1", "logcons": "1", "only_classes": "none"}})
         # components with their own sender goroutines
         for comp, lens in (("filecombinator", "1,2"), ("paramcombinator", "2,1"), ("filecombinator", "1,1,1")):
             jobs.append(J.with_delay_fallback({"id": f"C12-{comp}-l{lens.replace(',', '')}", "prop": "C12", "kind": "comp", "mode": "dpor", "budget": J.budget(tier, 30, 300), "oracles": [], "events_dep": False, "force_all": -1, "race": True,
